@@ -23,6 +23,9 @@ def run(tier, seed):
     rng = random.Random(seed)
     X.mc_stage(ctx, ["pfi_a"] if quick else ["pfi_a", "pfi_b", "pfi_c", "pfi_d", "pfi_o", "pfi_def"],
                "RunningStatistic ContributionDefinition FirstCallSeedsOnly FirstCallNoModel VarNonNegative LockStep")
+    if not quick:
+        X.abs_stage(ctx, ["pfi_a", "pfi_w"])
+        X.refine_stage(ctx, ["pfi_a", "pfi_b", "pfi_c", "pfi_d", "pfi_o", "pfi_def"])
     X.replay_stage(ctx, ["pfi_q"] if quick else ["pfi_q", "pfi_a", "pfi_prod", "pfi_o"], wanted_replay, limit=None if quick else 3000, rng=rng)
     n = 120 if quick else 1500
     scs = E.fault_free_batch(rng, n, quick, cls="pfi")
